@@ -38,6 +38,10 @@ def run(ctx):
     rfc_id_tables(ctx, P)
     from rules.tables import lossless_bool_subpackets
     lossless_bool_subpackets(ctx, P)
+    from rules.tables import bitfield_parse_total
+    bitfield_parse_total(ctx, P)
+    remembered_length_gate(ctx, P)
+    declared_total_reduced_by_prefix(ctx, P)
     opaque_layout(ctx, P)
     version_named_dispatch(ctx, P)
     incremental_header_adjustments(ctx, P)
@@ -254,6 +258,107 @@ def _self_mutations(b):
             if r_['k'] == 'ref' and r_.get('m') == 'mut' and r_['p']['l'] == 1 and len(r_['p']['pr']) > 1 and r_['p']['pr'][0] == '*':
                 out.append((i, r_['p']['pr'][1]))
     return out
+
+
+WRITES = re.compile(r'(write_u8|write_u16|write_u32|write_all|to_writer|to_writer_with_header|write_header|io::Write::write)$')
+
+
+def remembered_length_gate(ctx, P):
+    """S05-15: a serialiser that writes NOTHING when a remembered length field F of its type equals a constant (kept "to fully
+    round trip" a zero-octet encoding) makes F part of the value: every public `&mut self` method that changes another field must also
+    set F (directly or through a method of the type that does), otherwise content set through the public API is never written.
+    Gate fields are discovered from the `to_writer` bodies (a branch on exactly one field of the type against a constant with an edge
+    that returns without any write and that every write-free path has to take)."""
+    gates = []
+    for p, r in sorted(ctx.f.bodies.items()):
+        m = re.match(r'^<(.*) as ser::Serialize>::to_writer$', p)
+        if not m:
+            continue
+        tpath = m.group(1)
+        T = tpath.split('::')[-1]
+        b = core.B(r)
+        writes = set(i for i, t in b.calls() if WRITES.search(t['f'].get('fn', '') or ''))
+        rets = set(b.returns())
+        for i, t in b.switches():
+            og = b.switch_origins(i)
+            flds = set(x for x in og if x.startswith('field:' + T + '.'))
+            if len(flds) != 1 or not any(x.startswith('const:') for x in og):
+                continue
+            silent = any(b.reach_from([j], removed=frozenset(writes)) & rets for j, _ in b.succ(i))
+            only_here = not (b.reach_from([0], removed=frozenset(writes | {i})) & rets)
+            if silent and only_here:
+                gates.append((tpath, T, next(iter(flds))[6:], p, site(b, i)))
+                break
+    ctx.floor(P + ':S05-15:floor', 'serialisers with a remembered-length gate', len(gates), 1)
+    for tpath, T, fld, wp, wsite in gates:
+        ctx.functions.add(wp)
+        setters_of_f = set()
+        methods = {}
+        for p, r in ctx.f.bodies.items():
+            if not p.startswith(tpath + '::') or r['kind'] != 'AssocFn' or r['nargs'] < 1:
+                continue
+            if not (r['locals'][1]['ty'] or '').startswith('&mut'):
+                continue
+            b = ctx.wrap(r)
+            muts = _self_mutations(b)
+            methods[p] = (b, muts)
+            if any(f_ == '.' + fld for _, f_ in muts):
+                setters_of_f.add(p)
+        bad = []
+        n = 0
+        for p, (b, muts) in sorted(methods.items()):
+            others = [f_ for _, f_ in muts if f_ != '.' + fld]
+            if not others or b.r.get('vis') != 'pub':
+                ctx.functions.discard(p) if p not in setters_of_f else None
+                continue
+            n += 1
+            sets = p in setters_of_f or any(ctx.f.body(t['f'].get('fn', '')) is not None and t['f'].get('fn') in setters_of_f for _, t in b.calls())
+            if not sets:
+                bad.append(p.split('::')[-1])
+        ctx.check('%s:S05-15:gate-set-by-mutators:%s' % (P, T), 'R-who',
+                  '%s::to_writer writes nothing while `%s` has its gate value; each of the %d public mutators of another field also sets it' % (T, fld.split('.')[-1], n),
+                  not bad and n > 0, function=wp, site=wsite,
+                  missing=None if not bad else 'public mutators that change the content but leave `%s` alone: %s - what they set is never serialised when the value came from an empty encoding'
+                  % (fld, ', '.join(bad)))
+
+
+FIELD_READS = re.compile(r'BufReadParsing::(read_u8|read_be_u16|read_be_u32|read_le_u16|read_arr|read_arr_boxed|take_bytes|read_take|rest)$|Mpi::try_from_reader$')
+
+
+def declared_total_reduced_by_prefix(ctx, P):
+    """S05-16: a parser that is handed the declared length of a WHOLE field (`len: Option<usize>`, the v6 public-key octet count)
+    and reads that many octets as the opaque remainder may do so only if it has not already read a part of the field; after a prefix
+    (the curve OID and its length octet) the remainder is the total minus the prefix.  Otherwise the opaque form of a value that the
+    v4 layout accepts can never be read in the v6 layout.  Sites = `take_bytes` / `read_take` whose size operand IS the length
+    parameter (no arithmetic on the way)."""
+    n = 0
+    for p, r in sorted(ctx.f.bodies.items()):
+        if '::tests::' in p or r.get('derived'):
+            continue
+        b = core.B(r)
+        cs = b.calls(r'BufReadParsing::(take_bytes|read_take)$')
+        if not cs:
+            continue
+        defs = single_defs(b)
+        dom = None
+        for i, t in cs:
+            if len(t['args']) < 2:
+                continue
+            k, v = resolve_value(b, t['args'][1], defs)
+            if k != 'place' or 'l' not in v or not (1 <= v['l'] <= r['nargs']):
+                continue
+            if r['locals'][v['l']]['ty'] not in ('usize', 'std::option::Option<usize>', 'u32', 'std::option::Option<u32>'):
+                continue
+            n += 1
+            ctx.functions.add(p)
+            dom = dom or b.dominators()
+            prior = [j for j, tt in b.calls() if FIELD_READS.search(tt['f'].get('fn', '') or '') and j in dom.get(i, ()) and j != i]
+            ctx.check('%s:S05-16:total-minus-prefix:%s#%d' % (P, p, [x for x, _ in cs].index(i)), 'R-dom',
+                      '%s reads the declared total length of its field only when nothing of the field was read before' % p.split('::')[-2 if p.endswith('try_from_reader') else -1],
+                      not prior, function=p, site=site(b, i),
+                      missing=None if not prior else 'the size is the caller\'s total for the whole field, but %d read(s) of the same reader (first at %s) precede it on every path: the read overshoots by the octets already taken'
+                      % (len(prior), site(b, prior[0])))
+    ctx.floor(P + ':S05-16:floor', 'reads sized directly by a declared-total parameter', n, 2)
 
 
 def header_freshness(ctx, P):
@@ -512,6 +617,16 @@ def image_header_length_formula(ctx, P):
     ctx.check(P + ':S05-14:image-header-length-formula', 'R-table', 'per opaque image-header variant, the constant subtracted by the parser equals the constant added by the writer',
               bool(read) and read == written and None not in read.values(), function=wb.path, table=dict(parser=read, writer=written),
               missing=None if read == written else 'parser %s, writer %s' % (read, written))
+    # a variant whose writer emits a CONSTANT length (the JPEG header is written as the fixed prefix `10 00 01 01`) may only be
+    # built from a header whose parsed length was compared with that constant: otherwise a longer header is accepted, its surplus
+    # octets silently become image data and it is written back (and hashed) with another length octet
+    sinks = [j for j, k, s_ in rb.constructs(r'user_attribute::ImageHeaderV1$', 'Jpeg')]
+    const_len = None
+    for cpath, c in ctx.f.consts.items():
+        if cpath.endswith('user_attribute::JPEG_HEADER_PREFIX'):
+            const_len = c
+    rdom(ctx, P + ':S05-14:constant-length-variant-checked', rb, sinks, [r'call:.*read_le_u16$', r'const:16:'],
+         'the JPEG image header (written with the constant length 16) is only built from a parsed header length that was compared with 16')
 
 
 def stored_length_encoding(ctx, P):
